@@ -86,6 +86,10 @@ def run(run: Run, pkg: Package) -> None:
     ok, how = S.decide_equal(got, ref)
     if ok is False and tr.atoms:
         ok = None
+    fd = float_floordiv(ex(maxbin))
+    if fd is not None and ok is not True:
+        ok, how = False, ("float floor division: L_min = 10.0, rdelta = 0.1 gives 10.0 // 0.2 == 49.0 (the binary value of 0.2 lies above 1/5), i.e. 49 bins where int(L_min / 2 / rdelta) = 50: "
+                          "the last bin is silently dropped whenever L_min / (2 rdelta) is a whole number and rdelta is not a binary fraction")
     run.ob("R-ALG", fq_init, "maxbin", ok, "number of bins is int(L_min / (2 rdelta))", f"code: {sp.sstr(got)[:120]}; {how}",
            witness=None if ok else how, loc=init_loc, sound=True)
     for name, refexpr, what in [("rhototal", sN / sV, "total density N/V"), ("boxvolume", sV, "volume = prod(boxlength of frame 0)"),
